@@ -22,7 +22,7 @@
     sum replaced by the whole-microsecond average times the count. *)
 From Coq Require Import ZArith List Bool.
 From AGH Require Import Model.Stats Model.StatsShutdown Proofs.Stats Proofs.StatsExt Proofs.StatsTops Proofs.StatsCut
-  Proofs.StatsShutdown.
+  Proofs.StatsShutdown Proofs.StatsCut Proofs.StatsUpstreams.
 From AGH Require Base.Conc Proofs.StatsConc.
 Import ListNotations.
 Local Open Scope Z_scope.
@@ -422,6 +422,55 @@ Theorem C09_reset_atomic :
   one_write_section p_put_config = true /\ one_write_section p_set_limit = true.
 Proof. exact reset_is_one_section. Qed.
 Print Assumptions C09_reset_atomic.
+
+(** * Per-upstream statistics as exact integers *)
+
+(** unit.add: an accepted update adds, for every upstream response that counts
+    (not cached, no error), one to the responses of its address and its
+    duration in microseconds to the time sum of its address; nothing else
+    changes in the two maps ([mget]: the map's value at an address, 0 when
+    absent; [sorted]: strictly increasing keys, kept by every update). *)
+Theorem C09_upstream_update : forall c e u a,
+  sorted (u_up u) -> sorted (u_upt u) ->
+  mget a (u_up (add_cat c e u)) = mget a (u_up u) + count_ups a (e_ups e) /\
+  mget a (u_upt (add_cat c e u)) = mget a (u_upt u) + time_ups a (e_ups e) /\
+  sorted (u_up (add_cat c e u)) /\ sorted (u_upt (add_cat c e u)).
+Proof. exact upstream_update. Qed.
+Print Assumptions C09_upstream_update.
+
+(** GET /control/stats, any state: behind every reported average there are two
+    integers, the responses and the microseconds of that upstream summed over
+    the units of the window as they are stored (each unit's two maps cut to
+    their 100 largest values independently); the float of the answer is
+    sum / responses * 1e-6 (checked on the real answer by the harness). *)
+Theorem C09_upstream_averages_exact : forall s a t n,
+  In (a, (t, n)) (d_up_avg (get_data s)) ->
+  n = zsum (map (fun u => ksum a (u_up u)) (load_units s)) /\
+  t = zsum (map (fun u => ksum a (u_upt u)) (load_units s)) /\ t <> 0.
+Proof. exact upstream_averages_exact. Qed.
+Print Assumptions C09_upstream_averages_exact.
+
+(** ... and an upstream with responses and a non-zero time sum is reported. *)
+Theorem C09_upstream_averages_complete : forall us a,
+  mget a (resp_of us) <> 0 -> mget a (tsum_of us) <> 0 ->
+  In (a, (mget a (tsum_of us), mget a (resp_of us))) (up_avg us).
+Proof. exact up_avg_complete. Qed.
+Print Assumptions C09_upstream_averages_complete.
+
+(** With at most 100 upstreams in an hour serialisation keeps both maps. *)
+Theorem C09_upstream_small_units_uncut : forall u,
+  Z.of_nat (length (u_up u)) <= max_top -> Z.of_nat (length (u_upt u)) <= max_top ->
+  u_up (ser u) = u_up u /\ u_upt (ser u) = u_upt u.
+Proof. exact ser_keeps_small_upstreams. Qed.
+Print Assumptions C09_upstream_small_units_uncut.
+
+Theorem C09_upstream_example :
+  let h := [ex_up [(1, true, 2500); (2, false, 9000)]; ex_up [(1, true, 2500); (2, true, 0)];
+            OFlush 490001; ex_up [(1, true, 700); (3, false, 5)]; ORestart 490001] in
+  let d := get_data (Stats.run (Stats.init 490000 (24 * ms_hour) true) h) in
+  d_up_avg d = [(1, (5700, 3))] /\ d_top_up d = [(1, 3); (2, 1)] /\ d_num d = 3.
+Proof. exact upstream_example. Qed.
+Print Assumptions C09_upstream_example.
 
 (** * Clean shutdown concurrent with the hourly flush and with updates *)
 
